@@ -92,6 +92,9 @@ type node struct {
 	advertised int64 // commit offset advertised by the last non-duplicate Append (what the follower will apply)
 	dbCommit   int64 // commit offset of the follower's database as last observed
 	electing   bool  // BecomeLeader got past its checks in the current term and did not complete (model: nelect)
+	aheadTerm  int64 // term in which the node started leading with a database commit offset beyond its log head (-2: none)
+	aheadUpTo  int64 // that stale commit offset
+	aheadHead  int64 // the log head offset at that BecomeLeader
 	mcommit    int64 // number of committed entries the model knows for this node (see LearnCommit)
 }
 
@@ -473,3 +476,42 @@ func (n *node) leaderHasTracker() bool {
 }
 
 func removeAll(dir string) { _ = os.RemoveAll(dir) }
+
+type noCommitOffset struct{}
+
+func (noCommitOffset) CommitOffset() int64 { return wal.InvalidOffset }
+
+// recoveredLog opens the node's WAL from its directory exactly as a controller will (index recovery included), reads
+// every entry and closes it again.  Only called right after a restart, before any controller exists.
+func (n *node) recoveredLog() (res []entry, ok bool) {
+	if ents, err := os.ReadDir(filepath.Join(n.dir, "wal")); err != nil || len(ents) == 0 {
+		return nil, false // the node never had a WAL
+	}
+	defer func() {
+		if r := recover(); r != nil {
+			ok = false
+		}
+	}()
+	w, err := n.walF.(*walFactoryWrap).Factory.NewWal(namespace, shardId, noCommitOffset{})
+	if err != nil {
+		return nil, false
+	}
+	defer w.Close()
+	first := w.FirstOffset()
+	if first < 0 {
+		return nil, true
+	}
+	r, err := w.NewReader(first - 1)
+	if err != nil {
+		return nil, false
+	}
+	defer r.Close()
+	for r.HasNext() {
+		le, err := r.ReadNext()
+		if err != nil {
+			return nil, false
+		}
+		res = append(res, entry{term: le.Term, off: le.Offset, sum: sum64(le.Value)})
+	}
+	return res, true
+}
